@@ -125,6 +125,8 @@ impl ClientPlan {
                 close_after_each_exchange: false,
                 handshake_pace_ms: 0,
                 long_status_text: 0,
+                nack_keeps_connection: false,
+                registration_currency: None,
             },
             init: ConfigureOutcome::plain(),
             ops,
